@@ -147,4 +147,112 @@ theorem detVals_fixed (S : Schema) (f : Field) (vs : Vals)
   | cons v tl ih =>
     rw [detVals, h v (by simp [Vals.toList]), ih (fun w hw => h w (by simp [Vals.toList, hw]))]
 
+/-! ### entry lookup is invariant under reordering of entries with distinct keys -/
+
+/-- `lookupEntry` on plain lists -/
+def lookupEntryL : List Val → Val → Option Msg
+  | [], _ => none
+  | .msg e :: tl, k => if entryHasKey e k then some e else lookupEntryL tl k
+  | _ :: tl, k => lookupEntryL tl k
+
+theorem lookupEntry_eq_L (vs : Vals) (k : Val) : lookupEntry vs k = lookupEntryL vs.toList k := by
+  induction vs using Vals.ind with
+  | nil => rfl
+  | cons v tl ih =>
+    cases v with
+    | msg e => rw [lookupEntry_cons_msg, Vals.toList, lookupEntryL, ih]
+    | num n => rw [lookupEntry_cons_num, Vals.toList, lookupEntryL, ih]; intro e h; cases h
+    | bytes b => rw [lookupEntry_cons_bytes, Vals.toList, lookupEntryL, ih]; intro e h; cases h
+
+/-- no key is carried by both entries -/
+def KeysDiffer (a b : Val) : Prop :=
+  ∀ ea eb k, a = .msg ea → b = .msg eb → entryHasKey ea k = true → entryHasKey eb k = true → False
+
+theorem lookupEntryL_perm {l₁ l₂ : List Val} (hp : l₁.Perm l₂) (hd : l₁.Pairwise KeysDiffer) (k : Val) :
+    lookupEntryL l₁ k = lookupEntryL l₂ k := by
+  induction hp with
+  | nil => rfl
+  | cons x _ ih =>
+    rw [List.pairwise_cons] at hd
+    cases x with
+    | msg e => simp only [lookupEntryL, ih hd.2]
+    | num n => simp only [lookupEntryL, ih hd.2]
+    | bytes b => simp only [lookupEntryL, ih hd.2]
+  | swap x y l =>
+    rw [List.pairwise_cons] at hd
+    have hxy := hd.1 x (List.mem_cons_self ..)
+    cases x with
+    | msg ex =>
+      cases y with
+      | msg ey =>
+        simp only [lookupEntryL]
+        by_cases h1 : entryHasKey ex k = true
+        · by_cases h2 : entryHasKey ey k = true
+          · exact (hxy ey ex k rfl rfl h2 h1).elim
+          · simp [h1, h2]
+        · simp [h1]
+      | num n => simp only [lookupEntryL]
+      | bytes b => simp only [lookupEntryL]
+    | num n => cases y <;> simp only [lookupEntryL]
+    | bytes b => cases y <;> simp only [lookupEntryL]
+  | trans h1 _ ih1 ih2 =>
+    exact (ih1 hd).trans (ih2 ((h1.pairwise_iff (fun h ea eb k e1 e2 k1 k2 => h eb ea k e2 e1 k2 k1)).mp hd))
+
+theorem keysDiffer_of_wf {S : Schema} {ei : Nat} {vs : Vals} (hw : wfEntries S ei vs = true) :
+    vs.toList.Pairwise KeysDiffer := by
+  induction vs using Vals.ind with
+  | nil => simp [Vals.toList]
+  | cons v tl ih =>
+    have hw0 := hw
+    rw [wfEntries, Bool.and_eq_true] at hw
+    simp only [Vals.toList, List.pairwise_cons]
+    refine ⟨?_, ih hw.2⟩
+    intro b hb ea eb k e1 e2 h1 h2
+    subst e1; subst e2
+    have hx := hw.1
+    have hk1 := (entryHasKey_iff _ _).mp h1
+    have hk2 := (entryHasKey_iff _ _).mp h2
+    rw [wfEntry, Bool.and_eq_true, hk1.1] at hx
+    simp only [Bool.and_eq_true] at hx
+    have := lookupEntry_isSome_of_mem hb hk2.1 hk2.2
+    cases hl : lookupEntry tl k with
+    | none => rw [hl] at this; cases this
+    | some _ => rw [hl] at hx; simp at hx
+
+/-- normalising the entries of a well-formed map keeps every key -/
+theorem lookupEntry_detVals (S : Schema) (f : Field) (vs : Vals) (hw : wfEntries S f.sub vs = true) (k : Val) :
+    lookupEntry (detVals S f vs) k = (lookupEntry vs k).map (detMsg S f.sub) := by
+  induction vs using Vals.ind with
+  | nil => rw [detVals]; rfl
+  | cons v tl ih =>
+    have hw0 := hw
+    rw [wfEntries, Bool.and_eq_true] at hw
+    obtain ⟨e, k0, hv, hk0, hs0, _, hwe⟩ := wfEntries_mem hw0 (v := v) (by simp [Vals.toList])
+    subst hv
+    rw [detVals, detVal, lookupEntry_cons_msg, lookupEntry_cons_msg, ih hw.2]
+    have hkd := entryKey_detMsg S f.sub e k0 (wfMsg_nodup hwe) hk0 hs0
+    have : entryHasKey (detMsg S f.sub e) k = entryHasKey e k := by
+      unfold entryHasKey; rw [hkd, hk0]
+    rw [this]
+    split <;> rfl
+
+theorem keysDiffer_detVals (S : Schema) (f : Field) (vs : Vals) (hw : wfEntries S f.sub vs = true) :
+    (detVals S f vs).toList.Pairwise KeysDiffer := by
+  rw [detVals_toList, List.pairwise_map]
+  refine List.Pairwise.imp_of_mem ?_ (keysDiffer_of_wf hw)
+  intro a b ha hb hab ea eb k e1 e2 h1 h2
+  obtain ⟨ea0, ka, hva, hka, hsa, _, hwa⟩ := wfEntries_mem hw ha
+  obtain ⟨eb0, kb, hvb, hkb, hsb, _, hwb⟩ := wfEntries_mem hw hb
+  subst hva; subst hvb
+  rw [detVal] at e1 e2
+  cases e1; cases e2
+  have hda := entryKey_detMsg S f.sub ea0 ka (wfMsg_nodup hwa) hka hsa
+  have hdb := entryKey_detMsg S f.sub eb0 kb (wfMsg_nodup hwb) hkb hsb
+  have k1 := ((entryHasKey_iff _ _).mp h1)
+  have k2 := ((entryHasKey_iff _ _).mp h2)
+  rw [hda] at k1; rw [hdb] at k2
+  have e1 := k1.1; have e2 := k2.1
+  cases e1; cases e2
+  exact hab ea0 eb0 k rfl rfl ((entryHasKey_iff _ _).mpr ⟨hka, hsa⟩) ((entryHasKey_iff _ _).mpr ⟨hkb, hsb⟩)
+
 end Pb
